@@ -92,6 +92,9 @@ func (r *fragFile) Read(p []byte) (int, error) {
 	n := 1 + v.Choose("read", max)
 	copy(p, r.data[r.pos:r.pos+n])
 	r.pos += n
+	if r.pos == len(r.data) && v.Bool("eof-with-last-bytes") {
+		return n, io.EOF // io.Reader allows the final bytes and the end marker in one call
+	}
 	return n, nil
 }
 
